@@ -1,10 +1,12 @@
 mod c01;
+mod c02;
 mod c03;
 mod c04;
 mod c05;
 mod c06;
 mod c07;
 mod c09;
+mod c11;
 mod c17;
 mod enum_fol;
 mod dom;
@@ -63,6 +65,8 @@ fn main() {
             "C06" => c06::replay(&v),
             "C04" => c04::replay(&v),
             "C03" => c03::replay(&v),
+            "C02" => c02::replay(c02::Mode::C02, &v),
+            "C19" => c02::replay(c02::Mode::C19, &v),
             "C17" => c17::replay(&v),
             "C18" => c07::replay(c07::Mode::C18, &v),
             _ => {
@@ -78,11 +82,14 @@ fn main() {
         "C08" => c01::run(c01::Mode::C08, &run),
         "C07" => c07::run(c07::Mode::C07, &run),
         "C05" => c05::run(&run),
+        "C11" => c11::run(&run),
         "C09" => c09::run(c09::Mode::C09, &run),
         "C12" => c09::run(c09::Mode::C12, &run),
         "C06" => c06::run(&run),
         "C04" => c04::run(&run),
         "C03" => c03::run(&run),
+        "C02" => c02::run(c02::Mode::C02, &run),
+        "C19" => c02::run(c02::Mode::C19, &run),
         "C17" => c17::run(&run),
         "C18" => c07::run(c07::Mode::C18, &run),
         _ => {
